@@ -6,6 +6,7 @@ import CoapLite.Driver.Uint
 import CoapLite.Driver.Acc
 import CoapLite.Driver.Obs
 import CoapLite.Driver.Lf
+import CoapLite.Driver.Blk
 
 open CoapLite.Driver
 
@@ -19,6 +20,7 @@ def dispatch (line : String) : String :=
   | "ACC" :: rest => acc rest
   | "OBS" :: rest => obs rest
   | "LF" :: rest => lf rest
+  | "BLK" :: rest => blk rest
   | _ => "bad-domain"
 
 partial def loop (hin : IO.FS.Stream) (hout : IO.FS.Stream) (buf : String) (n : Nat) : IO Unit := do
